@@ -225,6 +225,19 @@ class C07(CheckBase):
             image = dfswork.gen_image(rng)
             ext = image['ext']
             size = None
+            if rng.chance(0.3):
+                # legal catalogue contents that are awkward to print: control characters (TAB, CR, LF, ESC, DEL),
+                # high-bit bytes, names of spaces, titles with the same
+                for sj in image['surfaces']:
+                    for v in sj['volumes']:
+                        for f in v['files']:
+                            if rng.chance(0.3):
+                                f['name'] = bytes(rng.choice([0x09, 0x0A, 0x0D, 0x1B, 0x7F, 0x01, 0x08, 0x0C, 0x41, 0x2E, 0x2A, 0x23, 0x3A]) if rng.chance(0.5) else rng.randint(0x21, 0x7E)
+                                                  for _ in range(rng.randint(1, 7)))
+                            if rng.chance(0.15):
+                                f['dir'] = rng.choice([0x09, 0x0A, 0x1B, 0x7F, 0x2E, 0x2A, 0x23, 0x3A, 0x20])
+                        if rng.chance(0.3):
+                            v['title'] = bytes(rng.choice([0x09, 0x0A, 0x0D, 0x1B, 0x7F, 0x80 | 0x41, 0x41, 0x20]) for _ in range(rng.randint(1, 12)))
         elif src == 'genflux':
             fc, dmg = fluxwork.gen_hostile_flux(rng, sides=rng.weighted([(4, 1), (1, 2)]))
             surfaces = [dd.gen_surface(rng, variant='acorn', geom=(fc['tracks'], fc['spt']), img_id=8, side=sd).to_json() for sd in range(fc['sides'])]
